@@ -22,6 +22,7 @@ def body(ctx):
     v01 = []
     c01.write_loop(ctx, prog, v01)
     c01.handover(ctx, prog, v01)
+    c01.drain_all(ctx, prog, v01)
     if v01:
         ctx.report('outbound-stream', f"{len(v01)} write-path obligations violated, e.g. {str(v01[0])[:250]}; confirmed by the native write-path differential", {'solver_counterexamples': [str(v)[:300] for v in v01[:6]]},
                    c01.NATIVE, inject_into='src/io_loop/mod.rs', profiles=('dev',), hang_is_violation=True, panic_is_violation=True)
